@@ -9,9 +9,9 @@ spec: FMachine (MiniFortran reference machine) evaluated by TLC through Trace_Tr
 pools: `core` = constructs the C back end is expected to translate; each other pool adds one construct."""
 from .. import lib_fm_transpile as T
 
-CORE = ('lb', 'step', 'lvafter', 'idiv', 'mod', 'intfn', 'sign', 'ipow', 'conv', 'while', 'select')
-POOLS = ('core', 'boundmod', 'fndiv', 'intcast', 'exitcycle', 'section', 'selneg', 'idxdiv')
-QUICK = {'core': 24, '*': 4}
+CORE = ('lb', 'step', 'lvafter', 'idiv', 'mod', 'intfn', 'sign', 'ipow', 'conv', 'while', 'select', 'intcast', 'rpow')
+POOLS = ('core', 'boundmod', 'fndiv', 'exitcycle', 'section', 'selneg', 'idxdiv', 'varstep')
+QUICK = {'core': 26, '*': 4}
 THOROUGH = {'core': 240, '*': 20}
 
 ASSUMPTIONS = [
